@@ -284,3 +284,36 @@ R.contract(
     bounded_note="caches with up to 2 entries",
     replayable=False,
 )
+
+
+# ------------------------------------------------------------------------------------------------- EngineContext: the unit phases' outcome cache (unique inputs) is the same kind of map
+ECX12 = "schemathesis.engine.context:EngineContext."
+_ECtxObj = lambda: Obj(ECX12.rstrip("."), outcome_cache=KeyedDict(Int, OneOf(NoneT, Opq("StepException")), sizes=(0, 1, 2)))
+R.contract(
+    ECX12 + "get_cached_outcome",
+    variant="cache",
+    prop="C12",
+    args={"self": _ECtxObj(), "case": Opq("CaseRef")},
+    raises=[],
+    ensures={
+        "a_cached_outcome_is_returned_as_cached_none_included": "implies(hash(case) in self.outcome_cache, result is self.outcome_cache[hash(case)] and result is not NOT_SET())",
+        "not_set_only_for_an_input_that_was_not_cached": "implies(hash(case) not in self.outcome_cache, result is NOT_SET())",
+        "lookup_changes_nothing": "self.outcome_cache == old(dict(self.outcome_cache))",
+    },
+    bounded_note="caches with up to 2 entries",
+    replayable=False,
+)
+R.contract(
+    ECX12 + "cache_outcome",
+    variant="cache",
+    prop="C12",
+    args={"self": _ECtxObj(), "case": Opq("CaseRef"), "outcome": OneOf(NoneT, Opq("StepException"))},
+    raises=[],
+    ensures={
+        "the_outcome_is_cached_under_the_input": "hash(case) in self.outcome_cache and self.outcome_cache[hash(case)] is outcome",
+        "other_inputs_keep_their_outcome": "all(implies(k != hash(case), k in self.outcome_cache and self.outcome_cache[k] is old(dict(self.outcome_cache))[k]) for k in old(dict(self.outcome_cache))) and "
+                                           "all(k == hash(case) or k in old(dict(self.outcome_cache)) for k in self.outcome_cache)",
+    },
+    bounded_note="caches with up to 2 entries",
+    replayable=False,
+)
